@@ -823,6 +823,11 @@ func (c *Conn) dispatch(env ref.Envelope, body []byte, msgID int64, seqNo int32,
 			c.Send((&W{}).U32(IDPong).I64(msgID).I64(pid).B, false)
 		}
 	default:
+		if c.Closed() {
+			// the server has closed this connection: what still arrives on it is lost, as with a real server
+			c.S.log(Event{Kind: "dropped-after-close", Conn: c.ID, MsgID: msgID, Ctor: fmt.Sprintf("%08x", ctor)})
+			return
+		}
 		if c.S.OnRequest != nil {
 			c.S.OnRequest(c, &Request{MsgID: msgID, SeqNo: seqNo, Salt: env.Salt, Session: env.Session, Body: append([]byte{}, body...), Ctor: ctor, InContainer: inContainer})
 		}
@@ -854,7 +859,7 @@ func (c *Conn) seal(msgID int64, seqNo int32, body []byte) []byte {
 
 // Send sends one encrypted message; returns its msg_id.
 func (c *Conn) Send(body []byte, contentRelated bool) int64 {
-	if c.key == nil {
+	if c.key == nil || c.Closed() {
 		return 0
 	}
 	c.S.mu.Lock()
@@ -876,7 +881,7 @@ func (c *Conn) Send(body []byte, contentRelated bool) int64 {
 
 // SendContainer sends the items in one msg_container (the container itself is not content-related).
 func (c *Conn) SendContainer(items []*Item) int64 {
-	if c.key == nil {
+	if c.key == nil || c.Closed() {
 		return 0
 	}
 	w := &W{}
@@ -900,6 +905,19 @@ func (c *Conn) SendContainer(items []*Item) int64 {
 	c.S.log(Event{Kind: "sent", Conn: c.ID, MsgID: id, SeqNo: seq, Ctor: fmt.Sprintf("%08x", uint32(IDMsgContainer)), Len: len(w.B), Note: fmt.Sprintf("container of %d", len(items))})
 	c.WriteFrame(c.seal(id, seq, w.B))
 	return id
+}
+
+// SealFrame builds the encrypted frame for a body (consuming a msg_id and seq_no) without sending it.
+func (c *Conn) SealFrame(body []byte, contentRelated bool) []byte {
+	if c.key == nil {
+		return nil
+	}
+	c.S.mu.Lock()
+	seq := c.nextSeq(contentRelated)
+	c.S.mu.Unlock()
+	id := c.S.nextMsgID(1)
+	c.S.log(Event{Kind: "sent", Conn: c.ID, MsgID: id, SeqNo: seq, Len: len(body), Note: "raw"})
+	return c.seal(id, seq, body)
 }
 
 // SendRawEncrypted seals an arbitrary body with explicit msg_id/seq_no (for hostile histories).
